@@ -293,11 +293,10 @@ class IRContext:
         return self._attr_overrides
 
     def _promote_float_array(self, arr: np.ndarray) -> np.ndarray:
-        if (
-            self.builder.enable_double_precision
-            and np.issubdtype(arr.dtype, np.floating)
-            and arr.dtype != np.float64
-        ):
+        # Same policy as numpy_dtype_to_ir_with_float_policy: double precision
+        # widens float32 only; float16 / bfloat16 values keep their dtype (their
+        # operands stay narrow, so a float64 constant would not type-check).
+        if self.builder.enable_double_precision and arr.dtype == np.float32:
             return arr.astype(np.float64, copy=False)
         return arr
 
